@@ -1,8 +1,11 @@
 (** C14 - property theorems only. Each is closed by [exact] of a lemma proved in
     proofs/TopicProofs*.v; nothing else lives here.
 
-    [run ideal ops]  state of the (repaired) broker model after history [ops]
+    [run ideal ops]  state of the (repaired) broker model after history [ops]; histories are
+                     lists of Conn c cleanSession | Sub | Unsub | Disc (connection end)
     [live ops]       declarative spec: finite map (client, filter) -> qos by naive replay
+                     (subscriptions of connected clients; a persistent session's
+                     subscriptions are suspended while it is offline)
     [matches]        MQTT 3.1.1 matching of filter levels against topic-name levels
     [find n T]       findSubscribers: [None] = error, [Some r] = every (client, qos) written
                      into the answer map (Go keeps one of them per client) *)
@@ -59,14 +62,29 @@ Theorem C14_unsub_unknown_is_noop : forall (ops : list op) (c : cid) (f : string
 Proof. exact unsub_unknown_is_noop. Qed.
 Print Assumptions C14_unsub_unknown_is_noop.
 
-(** malformed filters are rejected: by splitTopic, and a SUBSCRIBE carrying one changes nothing *)
+(** malformed filters are rejected: by splitTopic, and a SUBSCRIBE carrying one gets no
+    SUBACK and changes neither the trie nor the live subscriptions *)
 Theorem C14_malformed_rejected :
   (forall f, wf_filter f = false -> split_topic f = None) /\
   (forall ops c fqs, forallb (fun fq => wf_filter (fst fq)) fqs = false ->
-     step ideal (run ideal ops) (Sub c fqs) = (run ideal ops, Ack false) /\
-     live (ops ++ [Sub c fqs]) = live ops).
+     snd (step ideal (run ideal ops) (Sub c fqs)) = Ack false /\
+     trie (run ideal (ops ++ [Sub c fqs])) = trie (run ideal ops) /\
+     forall x, In x (live (ops ++ [Sub c fqs])) <-> In x (live ops)).
 Proof. exact malformed_rejected. Qed.
 Print Assumptions C14_malformed_rejected.
+
+(** connections: a client whose connection ended (any way) holds no live subscription;
+    a persistent session that reconnects holds exactly what was live at the drop *)
+Theorem C14_offline_not_live : forall (ops : list op) (c : cid) (f : string) (q : qos),
+  ~ In ((c, f), q) (live (ops ++ [Disc c])).
+Proof. exact offline_not_live. Qed.
+Print Assumptions C14_offline_not_live.
+
+Theorem C14_reconnect_restores : forall (ops : list op) (c : cid),
+  alookup c (sp_on (spec ops)) = Some false ->
+  forall x, In x (live (ops ++ [Disc c; Conn c false])) <-> In x (live ops).
+Proof. exact reconnect_restores. Qed.
+Print Assumptions C14_reconnect_restores.
 
 (** splitTopic (the Go loop) = well-formedness test + split at '/' *)
 Theorem C14_split_topic_spec : forall s : string,
@@ -108,11 +126,11 @@ Print Assumptions C14_history_repr.
 
 (** the decidable per-run checker [prop_trace] accepts every trace of the repaired model *)
 Theorem C14_prop_checker_sound : forall ops : list tr_op,
-  prop_trace [] ops (model_trace ideal st0 ops) = true.
+  prop_trace sp0 ops (model_trace ideal st0 ops) = true.
 Proof. exact prop_checker_sound. Qed.
 Print Assumptions C14_prop_checker_sound.
 
-(** the unchanged code (quirk flag on) violates the property *)
+(** the code before the fix (quirk flag on) violates the property *)
 Theorem C14_refuted_q_abort_on_malformed :
   exists ops T c q,
     has_wild T = false /\ live ops = [] /\
